@@ -130,30 +130,59 @@ Theorem C12_epr_gate_iff : forall known self r adj,
 Proof. exact epr_gate_iff. Qed.
 Print Assumptions C12_epr_gate_iff.
 
-Theorem C12_refused_creates_nothing : forall i s known r adj qid,
-  epr_gate known i r adj = false -> cmd_epr_keep i s known r adj qid = (s, RErr, []).
+Theorem C12_refused_creates_nothing : forall i s known r adj qid coins,
+  epr_gate known i r adj = false -> cmd_epr_keep i s known r adj qid coins = (s, RErr, []).
 Proof. exact refused_creates_nothing. Qed.
 Print Assumptions C12_refused_creates_nothing.
 
 (* C11, halves handed to another node: after a successful creation the sent half is not in the creator's qubitList *)
-Theorem C11_half_survives : forall i s known r adj qid s' tr,
-  cmd_epr_keep i s known r adj qid = (s', RDone None, tr) -> plookup (PM qid) (h_qlist (q_host s')) = None.
+Theorem C11_half_survives : forall i s known r adj qid coins s' tr,
+  cmd_epr_keep i s known r adj qid coins = (s', RDone None, tr) -> plookup (PM qid) (h_qlist (q_host s')) = None.
 Proof. exact half_survives. Qed.
 Print Assumptions C11_half_survives.
 
-(* C11 refuted for a failed pair creation (receiver full): both temporaries stay, the stop completes and leaves 2 qubits *)
-Theorem C11_stop_restores_refuted_failed_pair :
-  snd (fst (cmd_epr_keep 0 leak_start [0; 1] 1 true 0)) = RErr /\
+(* C11 for a failed pair creation (the replay of the former finding C11:epr-temporaries: creator N0 with room for 4 qubits,
+   receiver N1 with room for none).  Since the repair fixes/D16ii-epr-temporaries.diff the request still answers an error, but
+   its two temporaries are measured out again (the complete list of native calls is shown), the creator's host (unit modules,
+   used physical ids, qubitList) and node (held, simulated, registers, register counter) are what they were, and the stop
+   finds nothing to clear.  General statement: C11_failed_creation_restores / C11_failed_creation_leaves_creator in C11.v *)
+Theorem C11_failed_pair_restored :
+  snd (fst (cmd_epr_keep 0 leak_start [0; 1] 1 true 0 [true; false])) = RErr /\
+  snd (cmd_epr_keep 0 leak_start [0; 1] 1 true 0 [true; false]) =
+    [(ONew 0, Ok 0); (ONew 0, Ok 1); (OGate1 0 NH, OkNone); (OGate2 0 1 NCnot, OkNone); (OSend 1 1, Err KNoQubit);
+     (OMeas 0 false true, Ok 1); (OMeas 1 false false, Ok 1)] /\
+  q_host leak_after_create = q_host leak_start /\
+  node_counts leak_after_create 0 = node_counts leak_start 0 /\ node_counts leak_after_create 0 = (0, 0, 0, 0) /\
   snd (fst (exec 0 leak_after_create (QStopApp 0 []))) = RDone None /\
-  held (q_net leak_start) 0 = 0 /\ held (q_net leak_after_stop) 0 = 2 /\
-  h_units (q_host leak_after_stop) = [] /\ length (h_qlist (q_host leak_after_stop)) = 2.
-Proof. exact stop_restores_refuted_failed_pair. Qed.
-Print Assumptions C11_stop_restores_refuted_failed_pair.
+  node_counts leak_after_stop 0 = (0, 0, 0, 0) /\ h_units (q_host leak_after_stop) = [] /\ h_qlist (q_host leak_after_stop) = [].
+Proof. exact failed_pair_restored. Qed.
+Print Assumptions C11_failed_pair_restored.
+
+(* room for one more qubit only: the second cmd_new is refused, the first temporary is removed again; the qubit the creator
+   held before is still there, nothing else *)
+Theorem C11_failed_second_creation_restored :
+  snd (fst (cmd_epr_keep 0 tight_start [0; 1] 1 true 1 [false])) = RErr /\
+  map fst (snd (cmd_epr_keep 0 tight_start [0; 1] 1 true 1 [false])) = [ONew 0; ONew 0; OMeas 1 false false] /\
+  q_host (fst (fst (cmd_epr_keep 0 tight_start [0; 1] 1 true 1 [false]))) = q_host tight_start /\
+  node_counts (fst (fst (cmd_epr_keep 0 tight_start [0; 1] 1 true 1 [false]))) 0 = node_counts tight_start 0 /\
+  node_counts tight_start 0 = (1, 1, 1, 1).
+Proof. exact failed_second_creation_restored. Qed.
+Print Assumptions C11_failed_second_creation_restored.
+
+(* what the code did BEFORE the repair on the first input (cmd_epr_keep_unrepaired = cmd_epr without its except-branch): both
+   temporaries stay, the stop completes and the node keeps 2 qubits -- the former C11_stop_restores_refuted_failed_pair *)
+Theorem C11_unrepaired_code_leaked :
+  snd (fst (cmd_epr_keep_unrepaired 0 leak_start [0; 1] 1 true 0)) = RErr /\
+  snd (fst (exec 0 old_leak_after_create (QStopApp 0 []))) = RDone None /\
+  held (q_net leak_start) 0 = 0 /\ held (q_net old_leak_after_stop) 0 = 2 /\
+  h_units (q_host old_leak_after_stop) = [] /\ length (h_qlist (q_host old_leak_after_stop)) = 2.
+Proof. exact unrepaired_leak. Qed.
+Print Assumptions C11_unrepaired_code_leaked.
 
 Theorem C08_example_creation :
-  snd (fst (cmd_epr_keep 0 ok_start [0; 1] 1 true 0)) = RDone None /\
-  map fst (snd (cmd_epr_keep 0 ok_start [0; 1] 1 true 0)) = [ONew 0; ONew 0; OGate1 0 NH; OGate2 0 1 NCnot; OSend 1 1] /\
-  held (q_net (fst (fst (cmd_epr_keep 0 ok_start [0; 1] 1 true 0)))) 0 = 1 /\
-  held (q_net (fst (fst (cmd_epr_keep 0 ok_start [0; 1] 1 true 0)))) 1 = 1.
+  snd (fst (cmd_epr_keep 0 ok_start [0; 1] 1 true 0 [])) = RDone None /\
+  map fst (snd (cmd_epr_keep 0 ok_start [0; 1] 1 true 0 [])) = [ONew 0; ONew 0; OGate1 0 NH; OGate2 0 1 NCnot; OSend 1 1] /\
+  held (q_net (fst (fst (cmd_epr_keep 0 ok_start [0; 1] 1 true 0 [])))) 0 = 1 /\
+  held (q_net (fst (fst (cmd_epr_keep 0 ok_start [0; 1] 1 true 0 [])))) 1 = 1.
 Proof. exact ex_create_ok. Qed.
 Print Assumptions C08_example_creation.
